@@ -549,7 +549,7 @@ Fixpoint tw_below (fuel : nat) (g : graph) (k : nat) : bool :=
   end.
 (** [tw_is g w = true <-> tw_perm g = w] *)
 Definition tw_is (g : graph) (w : nat) : bool :=
-  negb (tw_below (length g) g w) && tw_below (length g) g (S w).
+  if tw_below (length g) g w then false else tw_below (length g) g (S w).
 (** [tw_gt g w = true <-> w < tw_perm g] *)
 Definition tw_gt (g : graph) (w : nat) : bool := negb (tw_below (length g) g (S w)).
 
@@ -586,8 +586,10 @@ Definition td_check (x : graph * nat * nat * option nat * option td) : nat :=
          if negb (td_ok g t) then 1
          else
            let w := width t in
-           if flag_tw mode && exact_method m && negb (tw_is g w) then 3
-           else if flag_tw mode && tw_gt g w then 4
+           (* [if .. then .. else false] rather than [&&]: the right operand is expensive and
+              vm_compute is call-by-value *)
+           if (if flag_tw mode then (if exact_method m then negb (tw_is g w) else false) else false) then 3
+           else if (if flag_tw mode then tw_gt g w else false) then 4
            else if match expect with
                    | Some e => if exact_method m then negb (w =? e) else w <? e
                    | None => false end then 6
@@ -618,7 +620,7 @@ Definition order_check (x : graph * nat * nat * option nat * (nat * list nat)) :
   if negb (wf_graphb g) then 2
   else if negb (is_perm order (gverts g)) then 1
   else if negb (elim_width g order =? w) then 3
-  else if flag_tw mode && (if which =? 0 then tw_gt g w else negb (tw_is g w)) then 4
+  else if (if flag_tw mode then (if which =? 0 then tw_gt g w else negb (tw_is g w)) else false) then 4
   else if match expect with
           | Some e => if which =? 0 then w <? e else negb (w =? e)
           | None => false end then 6
@@ -642,7 +644,7 @@ Definition order_exact (x : graph * nat * list nat) : nat :=
 Definition mmw_check (x : graph * nat * option nat * nat) : nat :=
   let '(g, mode, expect, lb) := x in
   if negb (wf_graphb g) then 2
-  else if flag_tw mode && tw_below (length g) g lb then 1
+  else if (if flag_tw mode then tw_below (length g) g lb else false) then 1
   else if match expect with Some e => e <? lb | None => false end then 6
   else if flag_model mode then
     match minor_min_width g with
